@@ -185,6 +185,10 @@ func init() {
 			return true
 		},
 		"verifPanicMsg": func(fr *frame, a []value) value { return fr.i.ex.panicMsg },
+		"verifBudgetFails": func(fr *frame, a []value) value {
+			fr.i.ex.budgetMsg = goString(a[0])
+			return nil
+		},
 		"verifParam": func(fr *frame, a []value) value {
 			name := goString(a[0])
 			v, ok := fr.i.ex.w.cfg.Params[name]
